@@ -337,8 +337,9 @@ def run_property(pid, tier, seed, only, jobs):
                     violations.append((e["name"], m["desc"], path, nat))
         if not reproduced:
             inconclusive.append((e["name"], "model-not-reproduced",
-                                 "solver reported failed checks %r but no model reproduced natively (models: %d)"
-                                 % (d.get("failed_checks"), len(ms))))
+                                 "solver reported failed checks %r but no model reproduced natively (models: %d)\n%s"
+                                 % (d.get("failed_checks"), len(ms),
+                                    "\n".join("    " + n["line"] for m in ms for n in m.get("native", [])))))
     write_evidence(pid, tier, seed, ents, results, t0, len(violations), meta, rev, dirty,
                    kani_wall=kani_wall, models=playback_models)
     for e in ents:
